@@ -482,3 +482,17 @@ def replay(ctx, rp):
     for v in ctx.violations:
         print("still fails:", v[1])
     return bool(ctx.violations)
+
+
+MANIFEST = {
+    "text": "Lean theorems about an executable model of solve_cnf for every CNF, fuel and set-iteration order; encode_* rules regenerated "
+            "from library/sat.json and re-proved each run; model tied to prover/sat.py by differential runs on generated CNFs; verdicts and "
+            "traces of the real solver judged by brute force and an independent trace replay. Termination is not proved (searched for with time limits).",
+    "note": "Trusted: Lean kernel, propext/Classical.choice/Quot.sound, the harness generators and the recording of Python set orders, the "
+            "sat.json translator. tseitin.encode is judged by the real checker plus brute-force equisatisfiability; its construction is not modelled.",
+    "design_ref": "DESIGN.md 4/C15",
+}
+FINDINGS = [
+    {"status": "fixed", "key": "nontermination:duplicate-literal-in-clause", "commit": "f79a848",
+     "what": "solve_cnf([[('x', False), ('x', False)]]) did not terminate: a clause repeating a literal is never unit"},
+]
